@@ -42,7 +42,6 @@ from numpy import (  # noqa: F401
 
 from dictIO import Parser, SDict
 from dictIO.types import K, M, V
-from dictIO.utils.counter import DejaVue
 
 __ALL__ = ["DictReader"]
 
@@ -154,21 +153,20 @@ class DictReader:
         comments: bool = True,
     ) -> None:
         """Parse and merge any (child) dicts that are referenced in the dict file through #include directives."""
-        # Create dejavue string watchdog
-        djv = DejaVue()
-        djv.reset()
-
         # Inner function: Merge all includes, recursively
-        def _merge_includes_recursive(parent_dict: SDict[K, V]) -> SDict[K, V]:
+        # `chain` holds the files of the include chain that leads to parent_dict (resolved paths).
+        # An include that names a file already in its own chain is recursive and gets skipped;
+        # the same file reached a second time on another branch is simply merged again (merging is idempotent).
+        def _merge_includes_recursive(parent_dict: SDict[K, V], chain: tuple[Path, ...]) -> SDict[K, V]:
             # empty dict to merge in temporarily, avoiding dict-has-change-error inside the for loop
             temp_dict: SDict[K, V] = SDict()
 
             # loop over all possible includes
             for _, _, path in parent_dict.includes.values():
-                prove_recursive_include = djv(path.name)
+                resolved_path = path.resolve()
 
-                if prove_recursive_include is True:
-                    call_chain = "->".join(list(djv.strings))
+                if resolved_path in chain:
+                    call_chain = "->".join([*[p.name for p in chain], path.name])
                     logger.warning(
                         f"Recursive include detected. Merging of {call_chain} into {parent_dict.name} aborted."
                     )
@@ -187,7 +185,10 @@ class DictReader:
 
                     # recursion in case the i-th include also has includes
                     if len(included_dict.includes) != 0:
-                        nested_included_dict = _merge_includes_recursive(parent_dict=included_dict)
+                        nested_included_dict = _merge_includes_recursive(
+                            parent_dict=included_dict,
+                            chain=(*chain, resolved_path),
+                        )
                         # merge second level
                         temp_dict.merge(nested_included_dict)
 
@@ -200,7 +201,7 @@ class DictReader:
             return parent_dict
 
         # Call inner funtion to merge all includes, recursively
-        parent_dict.merge(_merge_includes_recursive(parent_dict=parent_dict))
+        parent_dict.merge(_merge_includes_recursive(parent_dict=parent_dict, chain=()))
 
         return
 
